@@ -18,7 +18,17 @@ var verifPayloadSizes = []int{0, 4096, 70000, 1, 300000}
 // header part, the specific loader and the offset just past the last structure the
 // loader needs (computed from the container layout, independent of the loader).
 func verifC18Case(p int) (head []byte, load func(io.Reader) (*meta.Data, io.Reader, error), needed int) {
-	switch verifChoice(8) {
+	head, load, needed = verifC18Family(p)
+	// every family also through the auto-detecting loader: the candidates that fail
+	// before the right one must not eat the stream either
+	if verifChoice(2) == 1 {
+		load = Load
+	}
+	return
+}
+
+func verifC18Family(p int) (head []byte, load func(io.Reader) (*meta.Data, io.Reader, error), needed int) {
+	switch verifChoice(6) {
 	case 0: // PNG without profile: needs everything up to the IDAT chunk type
 		in, _ := pngmeta.VerifBuildPNG(verifChoice(2))
 		return in, pngmeta.Load, len(in) - 7
@@ -34,7 +44,7 @@ func verifC18Case(p int) (head []byte, load func(io.Reader) (*meta.Data, io.Read
 	case 4: // JPEG with a 2-chunk profile, SOF last: up to the end of SOF
 		in, _ := jpegmeta.VerifBuildJPEGICC(2, 2, false, []byte{2, 1}, []byte{2, 2})
 		return in, jpegmeta.Load, len(in) - 6
-	case 5: // WebP VP8 / VP8L / VP8X(+ICCP of 3 bytes)
+	default: // WebP VP8 / VP8L / VP8X(+ICCP of 3 bytes)
 		in := webpmeta.VerifBuildWebP()
 		// well-formed: for the simple formats the first chunk's declared length covers
 		// the bitstream header and the p bytes of pixel data that follow
@@ -52,12 +62,6 @@ func verifC18Case(p int) (head []byte, load func(io.Reader) (*meta.Data, io.Read
 			}
 		}
 		return in, webpmeta.Load, n
-	case 6: // the same PNG through the auto-detecting loader
-		in, _ := pngmeta.VerifBuildPNG(0)
-		return in, Load, len(in) - 7
-	default: // JPEG through the auto-detecting loader
-		in, _ := jpegmeta.VerifBuildJPEG(0)
-		return in, Load, len(in) - 3
 	}
 }
 
